@@ -528,6 +528,8 @@ void premature_stream_end(DFS::byte opcode)
 // track to the next block for the same side.
 struct HfeCopyState
 {
+  int got_bits = 0;	  // number of bits collected in out
+  byte out = 0;		  // the output byte being assembled
   byte this_op = 0;	  // HFEv3 opcode whose operand we have not seen yet
 };
 
@@ -535,8 +537,8 @@ void copy_hfe(bool hfe3, const byte* begin, const byte* end,
 	      std::back_insert_iterator<std::vector<byte>> dest,
 	      HfeCopyState* state)
 {
-  int got_bits = 0;
-  byte out = 0;
+  int& got_bits = state->got_bits;
+  byte& out = state->out;
   byte& this_op = state->this_op;
   while (begin != end)
     {
@@ -687,12 +689,12 @@ void copy_hfe(bool hfe3, const byte* begin, const byte* end,
 	     data, we worry about that separately. */
 	  out = static_cast<byte>((out >> 1 ) | bit);
 	  ++got_bits;
-	}
-      if (8 == got_bits)
-	{
-	  *dest++ = out;
-	  out = 0;
-	  got_bits = 0;
+	  if (8 == got_bits)
+	    {
+	      *dest++ = out;
+	      out = 0;
+	      got_bits = 0;
+	    }
 	}
     }
 }
